@@ -271,6 +271,40 @@ def shrink(sc, wd):
     return cur
 
 
+def zero_tolerance_scenarios(rng, k):
+    """an EXPLICIT zero tolerance (`-rtol 0`, `-rtol name:0`, next to other entries) on a float column that deviates
+    by exactly one ulp: exact comparison was requested, so the run must fail (a default silently substituted for
+    the explicit zero would accept the deviation)"""
+    import copy
+    import math
+    out, tries = [], 0
+    forms = [["0"], ["0.0"], ["{name}:0"], ["1e-3", "{name}:0"], ["{name}:0", "1e-3"]]
+    while len(out) < k and tries < 60 * k:
+        tries += 1
+        sc, _tags = cs.gen_csv_scenario(rng)
+        if sc["damage"] != [None, None] or sc.get("ext"):
+            continue
+        sc["res"] = copy.deepcopy(sc["ref"])
+        cols = [c for c in sc["res"]["cols"] if c["dt"] == "f64" and c["v"]]
+        if not cols:
+            continue
+        c = rng.choice(cols)
+        i = rng.randrange(len(c["v"]))
+        a = float(c["v"][i])
+        if a == 0.0 or not math.isfinite(a):
+            continue
+        form = rng.choice(forms)
+        sc["rtol"] = [t.format(name=c["name"]) for t in form]
+        sc["atol"] = rng.choice([None, ["0"]])
+        sc["incl"], sc["excl"] = None, None
+        if rng.random() < 0.8:
+            c["v"][i] = math.nextafter(a, math.inf if rng.random() < 0.5 else -math.inf)
+            out.append((sc, ["csv", "zero-tol-1ulp"]))
+        else:
+            out.append((sc, ["csv", "zero-tol-identical"]))
+    return out
+
+
 def run(ctx):
     ctx.rule = ("cases = decision-table entries, tolerance-argument lists x queried name, and file-mode scenarios "
                 "(logical result/reference data: CSV tables, unstructured meshes written as .vtu, .pvd sequences; edits: "
@@ -295,6 +329,7 @@ def run(ctx):
     token_cases(ctx)
     wd = cs.Workdir()
     try:
+        evaluate(ctx, zero_tolerance_scenarios(ctx.rng, ctx.scale(40, 600)), wd)
         n = ctx.scale(1400, 60000)
         CH = 400
         done = 0
